@@ -25,6 +25,7 @@ from sa.pyfront import Program
 from sa.symex import Interp, flat_guards
 
 RULES = {
+    "R-C01-g": "from_array builds its result in one place: no early return of a ready-made index (an entry-less index returned because the data has a single distinct value is wrong whenever the caller-chosen common value is another one)",
     "R-C01-f": "the dtype ladder that to_array relies on (fit_dtype) contains [min, max] in every leaf - imported from the C19 analysis",
     "R-C01-a": "fit_dtype receives a minimum whenever its argument is a category value that may be negative (to_array, both branches)",
     "R-C01-b": "a store keyed by a mapped value accumulates (membership/get test with a merging sibling branch, or defaultdict(list).append)",
@@ -273,6 +274,52 @@ def rule_e(prog, rep):
         rep.check(ok, "R-C01-e", "%s@%d" % (where, e.line), "the %s store is selected by len(self.shape) > 1 being %s" % ("2-D" if two_d else "1-D", two_d), "", "selected by %s" % [(tm.show(c)[:30], p) for c, p in g])
 
 
+def rule_g(prog, rep):
+    import ast as _ast
+    fi, I, fr = run_from_array(prog)
+    where = fi.fq
+    rets = [e for e in I.events if e.kind == "return" and not e.stack and isinstance(e.node, _ast.Return)]
+    if not rets:
+        rep.undecided("R-C01-g", where, "returns of from_array", "no return statement found")
+        return
+    last = max(rets, key=lambda e: e.seq)
+    rep.proved("R-C01-g", "%s@%d" % (where, last.line), "from_array returns the index built from the scanned entries", "final return")
+    values = tm.param("values")
+    for e in rets:
+        if e is last:
+            continue
+        g = flat_guards(e.guards)
+        w = "%s@%d" % (where, e.line)
+        cons = "from_array: early return %s" % e.src()[:50]
+        v = e["value"]
+        ctor_args = None
+        if v.op == "call" and v.args[1]:
+            ctor_args = v.args[1]
+        else:
+            for ce in I.events:
+                if ce.kind == "call" and ce["result"] is not None and ce["result"] == v and ce["args"]:
+                    ctor_args = ce["args"]
+        empty_entries = bool(ctor_args) and any(a.op == "alloc" and a.args[0] == "dict" and not I.heap.get(a, {}).get("items") for a in tm.alts(ctor_args[0]))
+        no_rows = any((c.op == "cmp" and c.args[0] == "==" and pol and tm.is_const(c.args[2], 0) and tm.contains(c.args[1], lambda x: x == values or (x.op == "call" and tm.contains(x, lambda y: y == values))))
+                      or (not pol and c.op == "call" and tm.callee_name(c) == "builtins.len" and tm.contains(c, lambda y: y == values)) for c, pol in g)
+        def _is_common(x):
+            return x == tm.param("common") or (x.op == "loopvar" and x.args[0] == "common") or (x.op in ("phi", "ifexp") and tm.param("common") in tm.alts(x))
+        relates_common = any(c.op == "cmp" and c.args[0] in ("in", "not in", "==", "!=") and tm.NONE not in c.args[1:] and tm.contains(c, _is_common) for c, pol in g)
+        def _is_rows(x):  # the input itself (or a reshaped / flattened view of it), as opposed to a table of its distinct values
+            while x.op == "attr" and x.args[1] in ("flat", "T", "shape"):
+                x = x.args[0]
+            return x == values or (x.op == "call" and tm.callee_name(x) in ("numpy.asarray", ".ravel", ".flatten", ".reshape") and tm.contains(x, lambda y: y == values) and not tm.contains(x, lambda y: y.op == "call" and (tm.callee_name(y) or "") in ("numpy.bincount", "numpy.unique")))
+        few_values = any(c.op == "cmp" and c.args[0] in ("<", "<=", "==") and pol and c.args[1].op == "call" and tm.callee_name(c.args[1]) == "builtins.len"
+                         and c.args[1].args[1] and not all(_is_rows(a) for a in tm.alts(c.args[1].args[1][0])) for c, pol in g)
+        if no_rows:
+            rep.proved("R-C01-g", w, cons, "taken only when the input has no rows")
+        elif empty_entries and few_values and not relates_common:
+            rep.violated("R-C01-g", w, cons, "an entry-less index is returned because the data has at most one distinct value, without checking that this value IS the common value: with a caller-chosen common value every row is uncommon and is lost",
+                         witness={"inputs": "iindex.from_array([7, 7, 7, 7], common=0).to_array() -> [0, 0, 0, 0]"})
+        else:
+            rep.undecided("R-C01-g", w, cons, "an early return whose index is not the one built from the scan; cannot decide that it holds every uncommon row")
+
+
 def main(tier):
     rep = core.Report("C01", level="other", rules=RULES, tier=tier,
                       declined="the round trip equals the input element for element, for every array and option (values); only four structural necessary conditions are decided")
@@ -284,6 +331,7 @@ def main(tier):
     rule_c(prog, rep)
     rule_d(prog, rep)
     rule_e(prog, rep)
+    rule_g(prog, rep)
     import c19
     sub = core.Report("C19", level="proof", rules=c19.RULES, tier=tier)
     c19.analyse(prog, sub, False)
